@@ -34,7 +34,11 @@ RULE = ('functional spec (class or factory x parameters, calculus nodes) x space
 TRUSTED = ['hand-written model Model/Prox.lean (tied by correspondence only; no translator)',
            'NumPy ufuncs / sort / cumsum, scipy.special.lambertw, np.linalg.svd (real code side)',
            'np.sqrt is a parameter of the model (driver: exact rational root or 2^-64 accurate)']
-ASSUMPTIONS = ['floating-point rounding is outside the model: exact comparison on dyadic inputs where '
+ASSUMPTIONS = ['IEEE overflow is outside the property: non-finite output of the KL-cross-entropy proximal '
+               '(exp(x*sigma/lam) overflow in the Lambert-W formula) is counted in error_kinds, not reported',
+               'a proximal point that is infeasible by one rounding error (feasible point within 1e-12 '
+               'relative) counts as feasible',
+               'floating-point rounding is outside the model: exact comparison on dyadic inputs where '
                'every operation is exact, |impl-model| <= 1e-9*scale+1e-12 elsewhere',
                "ODL's eps fudges (lam*(1-1e-14), ||x||*(1+1e-14)) are model parameters; theorems are "
                'stated for eps = 0',
@@ -783,16 +787,17 @@ def probe_minimiser(orc, p, pool, rng, n_rand, use_nm, S, finite_everywhere, dee
 
 def nearly_feasible(feval, p, pool, S):
     """f(p) = inf: a boundary point of the constraint set may be infeasible by one rounding error
-    (rounding is outside the property).  Look for a feasible point within 1e-9 (relative) of p:
-    towards other feasible points, or p rounded to 9 decimals.  Returns (point, f) or None."""
+    (rounding is outside the property).  Look for a feasible point within 1e-12 (relative) of p
+    (far below the 1e-9 tolerance of the objective comparison): towards other feasible points, or
+    p rounded to 12 decimals.  Returns (point, f) or None."""
     pf = flat(p)
     scale = max(1.0, float(np.max(np.abs(pf))) if pf.size else 1.0)
     cands = []
     for q in pool:
-        cands.append(p + 1e-9 * (q - p))
-        cands.append(unflat(S, pf + 1e-9 * scale * np.sign(flat(q) - pf)))
-    cands.append(unflat(S, np.round(pf, 9)))
-    cands.append(unflat(S, np.round(pf, 8)))
+        cands.append(p + 1e-12 * (q - p))
+        cands.append(unflat(S, pf + 1e-12 * scale * np.sign(flat(q) - pf)))
+    cands.append(unflat(S, np.round(pf, 12)))
+    cands.append(unflat(S, np.round(pf, 11)))
     for c in cands:
         try:
             v = fnum(feval(c))
@@ -835,6 +840,13 @@ def check_case(case, sg, xlist, rng, deep=0):
     p_orig = p
     info['p'] = pf
     if not np.all(np.isfinite(pf)):
+        if any(l.startswith(('KullbackLeiblerCrossEntropy', 'proximal_convex_conj_kl_cross_entropy'))
+               for l in case.leaves):
+            # exp(x/lam) overflows for x*sigma/lam > 709 in the Lambert-W formula: IEEE overflow
+            # is outside the property (DESIGN section 7.5); counted, not reported
+            info['status'] = 'overflow(exp in KL cross entropy)'
+            info['p'] = None
+            return probs, info
         probs.append(('finite', 'proximal point has non-finite entries {}'.format(pf[:6])))
         return probs, info
     if not np.array_equal(flat(x), x0):
